@@ -18,7 +18,7 @@ func checkC02(e *Engine, r *Report) {
 		"R11 partition frame lemmas (Venn algebra): every step that changes freeCpus and a balloon's Cpus together moves one set X between them (inflate: X ⊆ free leaves free; deflate: X ⊆ balloon returns), so disjointness and the union are preserved; deleting a balloon returns exactly its CPUs",
 		"idle sharing: CPUs offered for sharing are reduced by the kernel-isolated CPUs before they can enter any SharedIdleCpus; CPUs taken into a balloon are removed from every balloon's SharedIdleCpus; every growth of a balloon is followed by un-sharing those CPUs and every growth of the free set by re-sharing them",
 		"confinement: updatePinning tells each member container exactly Cpus ∪ SharedIdleCpus of its balloon (or one thread per core of exactly that set) and pinCpuMem passes the set on unchanged; assignContainer and every successful resize re-pin the balloon; balloons returned by shareIdleCpus are always re-pinned; membership is only created by assignContainer, called once per successful AllocateResources",
-		"R2 limits: resizeBalloon clamps the CPU count to [MinCpus, MaxCpus]; newBalloon refuses to exceed MaxBalloons; freeBalloon deletes only above MinBalloons; a container is assigned only if the balloon already has, or was successfully resized to, max(1, requested) milli-CPUs",
+		"R2 limits: resizeBalloon clamps the CPU count to [MinCpus, MaxCpus] on every path (with the limit set and the count beyond it, whatever other conditions hold, CPUs are moved only after the count was replaced by the limit); validateConfig refuses min > max; newBalloon refuses to exceed MaxBalloons; freeBalloon deletes only above MinBalloons; a container is assigned only if the balloon already has, or was successfully resized to, max(1, requested) milli-CPUs",
 		"R1 CPU class bracket: a balloon's CPUs are set to the idle class before and to the balloon's class after every change of its CPU set; deleting a balloon idles its CPUs; applying a configuration resets all CPUs and then applies every balloon's class; cpu.Assign adds CPUs to the named class and removes them from every other class",
 		"round 4: subset typing of the CPU-tree resizers (addFrom within the free CPUs); resize direction (Union only under target > size, Difference only under target <= size); balloonByContainer returns a balloon only under equality of one of its listed ids with the container's id; deleteBalloon keeps every other balloon and drops that one; setConfig empties the balloon list and resets the free set before the first applyBalloonDef",
 	}
